@@ -137,6 +137,21 @@ var c02Scripts = func() (out [][]c02Op) {
 		out = append(out, []c02Op{{op: "admit", k: a}, {op: "use", k: a}, {op: "ageonly", d: 6*time.Hour + 2*time.Minute}, {op: "dup", k: a}, {op: "admit", k: b}, {op: "age", d: 0}})
 		out = append(out, []c02Op{{op: "admit", k: a}, {op: "ageonly", d: 9 * time.Minute}, {op: "dup", k: a}, {op: "admit", k: b}, {op: "age", d: 0}, {op: "age", d: 2 * time.Minute}})
 	}
+	// one secret under two transports on one phantom (same port, so the detector's entry is the same): the first is only
+	// tracked (refused or still being probed) when its sibling is validated – validating the sibling must not make the
+	// tracked one matchable; and the reverse order as a control (added after seeded change C02-N)
+	for i, ta := range c02TTs {
+		for j, tb := range c02TTs {
+			if ta == tb {
+				continue
+			}
+			a, b, c := c02Key{0, 0, ta}, c02Key{0, 0, tb}, c02Key{0, 1, ta}
+			out = append(out, []c02Op{{op: "track", k: a}, {op: "admit", k: b}, {op: "admit", k: c}})
+			if (i+j)%2 == 1 {
+				out = append(out, []c02Op{{op: "admit", k: b}, {op: "track", k: a}, {op: "admit", k: c}})
+			}
+		}
+	}
 	// a used registration outlives two generations of neighbours and finally expires itself
 	a, b, c := c02Key{0, 0, pb.TransportType_Min}, c02Key{0, 1, pb.TransportType_Prefix}, c02Key{0, 2, pb.TransportType_Obfs4}
 	out = append(out, []c02Op{{op: "admit", k: a}, {op: "use", k: a}, {op: "admit", k: b}, {op: "age", d: 3 * time.Hour}, {op: "admit", k: c}, {op: "age", d: 4 * time.Hour}})
@@ -193,6 +208,8 @@ func c02Build(t *testing.T, rng *rand.Rand, idx int) *c02World {
 			switch op.op {
 			case "admit":
 				admit(op.k, vAllPrefixIDs[(idx+op.k.S)%len(vAllPrefixIDs)], false)
+			case "track":
+				admit(op.k, vAllPrefixIDs[(idx+op.k.S)%len(vAllPrefixIDs)], true)
 			case "use":
 				use(w.model[op.k])
 			case "age":
@@ -610,6 +627,38 @@ func c02HandlerOnce(rec *kit.Rec, w *c02World, f c02Flight, report bool) bool {
 // registration has expired and was swept (the handler must judge with the registry as it is, not as it was when the
 // connection arrived).  The real handler runs on a conn fed in two steps; the gap runs once the handler is parked in Read.
 // (Helpers shared with the C08 handler stage: c08Connect, c08NewCovert, c08Transport.)
+// c02ConnectReplyGap presents the whole stream at once; between() runs inside the station's FIRST Write to the client (on
+// the handler's own goroutine, outside the conn's lock): the client is slow to take the server's reply.
+func c02ConnectReplyGap(s *vStation, phantom net.IP, port int, stream []byte, between func()) c08ConnResult {
+	conn := kit.NewScriptConn("client", kit.TCPAddr(phantom.String(), 443), kit.TCPAddr("203.0.113.77", port), nil, kit.EndBlock)
+	conn.MaxBlock = 120 * time.Second
+	var once sync.Once
+	var ran atomic.Bool
+	conn.OnWrite = func([]byte) { once.Do(func() { between(); ran.Store(true) }) }
+	done := make(chan struct{})
+	t0 := time.Now()
+	go func() { s.vHandle(conn, phantom); close(done) }()
+	conn.Feed(kit.Seg{Data: stream})
+	conn.SetAtEnd(kit.EndEOF)
+	res := c08ConnResult{}
+	select {
+	case <-done:
+		res.returned = true
+	case <-time.After(90 * time.Second):
+		conn.Close()
+		select {
+		case <-done:
+		case <-time.After(30 * time.Second):
+		}
+	}
+	res.elapsed = time.Since(t0)
+	st := conn.State()
+	res.realTimout = st.TerminalReadErr != nil && kit.IsTimeout(st.TerminalReadErr) && !st.VirtualFired
+	res.ops = opsTail(conn)
+	res.gapRan = ran.Load()
+	return res
+}
+
 func TestVerifC02MidClassification(t *testing.T) {
 	rec := kit.NewRec("C02", "midclass")
 	defer rec.Close()
@@ -622,7 +671,13 @@ func TestVerifC02MidClassification(t *testing.T) {
 	for rep := 0; rep < kit.Tier(1, 6); rep++ {
 		for _, tr := range trs {
 			for _, gap := range []string{"none", "expired+swept"} {
-				for _, cutKind := range []string{"inside-tag", "last-byte", "accept"} {
+				cutKinds := []string{"inside-tag", "last-byte", "accept"}
+				if tr.TT == pb.TransportType_Obfs4 {
+					// the obfs4 station answers the client's handshake before WrapConnection returns: a client that is slow to
+					// take the reply opens a gap between the registry lookup and MarkActive (added after seeded change C02-M)
+					cutKinds = append(cutKinds, "server-reply")
+				}
+				for _, cutKind := range cutKinds {
 					n++
 					label := fmt.Sprintf("#%d %s cut=%s gap=%s", n, tr.Name, cutKind, gap)
 					rec.CaseCheap(label)
@@ -654,14 +709,60 @@ func TestVerifC02MidClassification(t *testing.T) {
 						stream = append(stream, []byte("\x10application data of the client")...)
 					}
 					before, _ := cov.settle()
-					r := c08Connect(s, phantom, 42000+n, stream, cut, func() {
+					gapFn := func() {
 						if gap == "expired+swept" {
 							s.rm.VerifBackdate(11 * time.Minute)
 							s.rm.RemoveOldRegistrations()
 						}
-					})
+					}
+					var r c08ConnResult
+					if cutKind == "server-reply" {
+						r = c02ConnectReplyGap(s, phantom, 42000+n, stream, gapFn)
+					} else {
+						r = c08Connect(s, phantom, 42000+n, stream, cut, gapFn)
+					}
 					after, ok := cov.settle()
+					if ok && r.returned && gap == "expired+swept" {
+						// whatever became of that connection: the registration is forgotten now, so a FRESH genuine flight for it
+						// (complete, in one piece) must be refused – a handler that was holding the registration's object across
+						// the sweep must not have brought it back
+						if fl2, err := s.vFlight(sp); err == nil {
+							st2 := append([]byte{}, fl2...)
+							if tr.TT != pb.TransportType_Obfs4 {
+								st2 = append(st2, []byte("\x10second connection after the sweep")...)
+							}
+							b2, _ := cov.settle()
+							r2 := c08Connect(s, phantom, 52000+n, st2, 0, nil)
+							a2, ok2 := cov.settle()
+							if ok2 && r2.returned {
+								rec.Count("evaluations", 1)
+								rec.Count("midclass_fresh_flight_after_sweep", 1)
+								if a2 > b2 {
+									rec.Violation("handler-proxied-but-must-reject:fresh-flight-after-sweep:"+cutKind, "after a registration had expired and was swept while a connection for it was being classified, a later genuine flight for it was proxied (the forgotten registration is being served again)",
+										map[string]interface{}{"case": label, "first_connection_proxied": after > before, "ops_first": r.ops, "ops_second": r2.ops})
+								}
+							}
+						}
+					}
 					cov.ln.Close()
+					if cutKind == "server-reply" {
+						// the match happened before the gap; whether that connection is still proxied is not judged
+						// (gap none: it must be, as a control that the rendezvous does not disturb a healthy session)
+						if ok && r.returned {
+							rec.Count("evaluations", 1)
+							rec.Distinct("nontrivial", tr.Name, cutKind, gap)
+							if gap == "none" && after <= before && !r.realTimout && r.elapsed <= 4*time.Second {
+								rec.Violation("handler-rejected-genuine:slow-reply", "a genuine obfs4 flight whose client took the server reply slowly (registration alive throughout) was not proxied",
+									map[string]interface{}{"case": label, "ops": r.ops})
+							}
+							if !r.gapRan {
+								rec.Inconclusive("the station wrote nothing to the client: the reply rendezvous was never reached", label)
+							}
+						} else {
+							rec.Inconclusive("the connection could not be judged", map[string]interface{}{"case": label, "returned": r.returned, "ops": r.ops})
+						}
+						continue
+					}
 					if !ok || !r.returned {
 						rec.Inconclusive("the connection could not be judged", map[string]interface{}{"case": label, "returned": r.returned, "ops": r.ops})
 						continue
